@@ -264,6 +264,32 @@ def run(idx, rep, tier):
                        ("" if ok else ": the estimate depends on |k| only, so diag(A, k) and diag(A, -k) receive the same estimator although they differ for every non-symmetric A "
                         "(one of the two is the diagonal of the transpose: a biased estimate)"), detail="" if ok else "abs-only", locs=[idx.loc(hutch.module, hutch.node)])
 
+    # ------------------------------------------------------------ clause 8: the caller's key is never written back
+    n_store = 0
+    for f in idx.funcs.values():
+        if not f.module.name.startswith("cola.") or f.module.name.startswith("cola.utils.utils_for_tests"):
+            continue
+        params = set()
+        g = f
+        while g is not None:
+            params |= set(g.params)
+            g = g.parent
+        for n in df.body_nodes(f.node, into_nested=False):
+            tgt = None
+            if isinstance(n, (ast.Assign, ast.AugAssign, ast.AnnAssign)):
+                tgts = n.targets if isinstance(n, ast.Assign) else [n.target]
+                tgt = next((t for t in tgts if isinstance(t, ast.Attribute) and t.attr == "key" and isinstance(t.value, ast.Name)), None)
+            elif isinstance(n, ast.Call) and isinstance(n.func, ast.Name) and n.func.id == "setattr" and len(n.args) >= 2 and isinstance(n.args[1], ast.Constant) and n.args[1].value == "key" \
+                    and isinstance(n.args[0], ast.Name):
+                tgt = ast.Attribute(value=n.args[0], attr="key", ctx=ast.Store())
+            if tgt is None:
+                continue
+            base = tgt.value.id
+            if base in params and base not in ("self", "cls"):
+                n_store += 1
+                rep.refuted("key-persistence", f"{fn_role(f)}:{base}.key", f"`{ast.unparse(n)[:80]}` writes a new key into the object passed as `{base}`: a second call with the same algorithm object "
+                            "and the same key draws different probes, so the result is no longer a function of (operator, key)", detail="written-back", locs=[idx.loc(f.module, n)])
+    rep.count("key-persistence", proved=1 if not n_store else 0)
     rep.floor("rng-bracket", 2)
     rep.floor("key-chain", 6)
     rep.floor("key-derivation", 4)
@@ -356,3 +382,8 @@ def probe_conjugation(idx, rep, hutch):
         rep.decide(verdict, "probe-conjugation", construct,
                    ("the Hutchinson estimator multiplies (A @ z) by the shifted probes without conjugation, so probes must be real-valued; " + why),
                    detail="" if verdict else "complex-probes", locs=[idx.loc(fi.module, fi.node), idx.loc(hutch.module, body.node)])
+
+
+def fn_role(f):
+    r = getattr(f, "rule", None)
+    return r.role if r is not None else f.short
